@@ -76,7 +76,7 @@ def run(pid, tier, rep):
     # 2. spec -> impl: environment schedules enumerated by TLC, executed on the real DataStreams pair, traces validated
     flows = [("cli-uni", '"cli"', 2, 2, 3), ("srv-uni", '"srv"', 3, 100, 2), ("cli-bi", '"cli"', 0, 1, 100), ("srv-bi", '"srv"', 1, 100, 100)]
     for fi, (name, side, sid, win, cwin) in enumerate(flows):
-        depth = (6 if fi == 0 else 5) if quick else 7
+        depth = 6 if quick else 7
         beh = os.path.join(wd, "beh_gen_%s.ndjson" % name)
         trace = os.path.join(wd, "trace_gen_%s.ndjson" % name)
         g = vlib.tlc_gen(pid, "Gen_Stream", GEN_CFG, {"MaxLen": 3, "MaxNet": 2, "S": side, "SID": sid, "Win": win, "CWin": cwin,
@@ -89,7 +89,7 @@ def run(pid, tier, rep):
     beh = os.path.join(wd, "beh_cover.ndjson")
     trace = os.path.join(wd, "trace_cover.ndjson")
     g = vlib.tlc_gen(pid, "Gen_StreamCover", COVER_CFG, {"MaxLen": 2, "MaxNet": 2, "S": '"cli"', "SID": 2, "Win": 100, "CWin": 100, "Depth": 0,
-                                                          "CoverDepth": 9 if quick else 14}, beh, dfs=True)
+                                                          "CoverDepth": 11 if quick else 14}, beh, dfs=True)
     rep.add_mc("Gen_StreamCover", g)
     vlib.vh(["streams-replay", beh, trace])
     validate(rep, pid, "tlc-transition-cover", trace)
@@ -97,7 +97,7 @@ def run(pid, tier, rep):
     beh = os.path.join(wd, "beh_inject.ndjson")
     trace = os.path.join(wd, "trace_inject.ndjson")
     g = vlib.tlc_gen(pid, "Gen_StreamInject", INJ_CFG, {"MaxLen": 2, "MaxNet": 2, "S": '"cli"', "SID": 2, "Win": 100, "CWin": 100, "Depth": 0,
-                                                          "InjDepth": 5 if quick else 6}, beh, workers=min(vlib.NCPU, 8))
+                                                          "InjDepth": 6 if quick else 7}, beh, workers=min(vlib.NCPU, 8))
     rep.add_mc("Gen_StreamInject", g)
     vlib.vh(["streams-replay", beh, trace])
     validate(rep, pid, "tlc-hostile-injection", trace)
